@@ -430,6 +430,73 @@ def rule_res(S):
              loc=e['loc'], path=e['path'])
 
 
+def rule_eq(S):
+    """iscan_check_retry: the cursor's validation primitive (sibling of scan_check_retry, C06 R-EQ)."""
+    facts = S.facts()
+    S.rule('R-EQ', 'iscan_check_retry(bn, v_at_fb, perm): `return OK` only when the stable version equals v_at_fb AND the '
+                   'permutation word equals perm (negative edges of both inequality tests); the permutation word is read '
+                   'between two equal stable versions; `return OK_RETRY_AFTER_FB` only with vsplit equal and not '
+                   'deleted, after refreshing both v_at_fb and perm; otherwise OK_RETRY_FROM_ROOT')
+    f = facts.one(Y + 'iscan_check_retry')
+    vfb = [p['id'] for p in f.params if 'node_version64_body' in p['type']][0]
+    perm = [p['id'] for p in f.params if 'permutation' in p['type']][0]
+    rets = {}
+
+    def step(ctx, nd, st):
+        veq, peq, atoms, rv, rp, sandwich = st
+        if is_call(nd, cq=Y + 'permutation::get_body') and root_var(f, call_recv(f, nd)) != perm:
+            return (veq, peq, atoms, rv, rp, 'perm-read')
+        if is_call(nd, cq=occ.STABLE) and sandwich == 'perm-read':
+            return (veq, peq, atoms, rv, rp, 'reverified')
+        if nd['k'] == 'CXXOperatorCallExpr' and nd.get('cn') == 'operator=' and nd.get('mcls') == Y + 'node_version64_body':
+            a = [root_var(f, x) for x in nd.get('args', [])]
+            if a and a[0] == vfb:
+                return (veq, peq, atoms, True, rp, sandwich)
+        if is_call(nd, cq=Y + 'permutation::set_body') and root_var(f, call_recv(f, nd)) == perm:
+            return (veq, peq, atoms, rv, True, sandwich)
+        if nd['k'] == 'ReturnStmt':
+            rc = R.ret_const(f, nd)
+            d = dict(atoms)
+            ok, why = True, ''
+            if rc == OKS:
+                ok = veq is True and peq is True
+                why = 'returns OK without version word (%s) and permutation word (%s) both established equal' % (veq, peq)
+            elif rc == Y + 'status::OK_RETRY_AFTER_FB':
+                ok = d.get('vsplit_eq') is True and d.get('deleted') is False and rv and rp
+                why = 'OK_RETRY_AFTER_FB although a split / deletion is not excluded, or v_at_fb / perm not refreshed'
+            e = rets.setdefault(R.ret_desc(f, nd), {'ok': True, 'loc': short_loc(nd), 'path': None, 'why': ''})
+            if not ok:
+                e['ok'] = False
+                e['why'] = why
+                e['path'] = e['path'] or ctx.witness()
+            return None
+        return st
+
+    def branch(ctx, blk, idx, st):
+        veq, peq, atoms, rv, rp, sandwich = st
+        if blk.term and 'cond' in blk.term and len(blk.succ) == 2:
+            c = f.strip(blk.term['cond'], casts=True)
+            t = term(f, blk.term['cond'])
+            if c is not None and c['k'] == 'CXXOperatorCallExpr' and c.get('cn') in ('operator==', 'operator!=') and \
+                    c.get('mcls') == Y + 'node_version64_body':
+                a = {root_var(f, x) for x in c.get('args', [])}
+                if vfb in a:
+                    veq = (idx == 0) == (c['cn'] == 'operator==')
+            if t[0] == 'bin' and t[1] in ('==', '!=') and any(
+                    x[0] == 'call' and x[1] == Y + 'permutation::get_body' for x in (t[2], t[3])):
+                peq = (idx == 0) == (t[1] == '==')
+            d = dict(atoms)
+            for (atom, val, subj, other, direct) in occ.atoms_from_branch(f, blk, idx, None):
+                d[atom] = val
+            atoms = frozenset(d.items())
+        return (veq, peq, atoms, rv, rp, sandwich)
+
+    Explorer(f, step, branch).run((None, None, frozenset(), False, False, None))
+    S.require('R-EQ', 'returns of iscan_check_retry', len(rets), 3)
+    for site, e in sorted(rets.items()):
+        S.ob('R-EQ', f.qname, site, e['ok'], 'as specified' if e['ok'] else e['why'], loc=e['loc'], path=e['path'])
+
+
 def run(S):
     S.undecided = ['that the sequence of produced keys equals the interval (state machine over depth x direction)',
                    'full-key reconstruction', 'monotonicity under concurrent writers',
@@ -441,3 +508,4 @@ def run(S):
     rule_ea(S)
     rule_cb(S)
     rule_res(S)
+    rule_eq(S)
